@@ -455,7 +455,7 @@ pub fn run(tier: &str) -> Result<Report, String> {
         return Err(format!("{} not built (./check builds it)", cli::checker_bin().display()));
     }
     let nets = core_nets(0)?;
-    let which = if tier == "quick" { vec!["tog2", "con2", "unf2"] } else { vec!["tog2", "con2", "unf2", "inp2", "imp3"] };
+    let which = vec!["tog2", "con2", "unf2", "inp2", "imp3"];
     let plain_lists: Vec<Vec<String>> = vec![
         vec!["!{x}: AX {x}".into()],
         vec!["EF a".into(), "!{x}: AG EF {x}".into(), "3{x}: 3{y}: (@{x}: ~{y} & AX {x}) & (@{y}: AX {y})".into()],
@@ -513,15 +513,9 @@ pub fn run(tier: &str) -> Result<Report, String> {
                 for print in prints {
                     for with_out in [false, true] {
                         for (li, l) in plain_lists.iter().enumerate() {
-                            if tier == "quick" && (layout + li + with_out as usize) % 2 == 1 && print != "exhaustive" {
-                                continue;
-                            }
                             cases.push((b.clone(), Case { fmt: fmt.into(), layout, print: print.into(), with_out, formulas: l.clone(), ctx: None, ctx_k_delta: 0 }));
                         }
                         for (li, l) in ext_lists.iter().enumerate() {
-                            if tier == "quick" && (layout + li) % 3 != 0 {
-                                continue;
-                            }
                             cases.push((b.clone(), Case { fmt: fmt.into(), layout, print: print.into(), with_out, formulas: l.clone(), ctx: Some(ctx_labels.clone()), ctx_k_delta: 0 }));
                         }
                     }
